@@ -82,6 +82,8 @@ pub struct Cfg {
     pub clone_held: bool,
     /// Offer EditHeld (in-place edits of a handed-out pool buffer; at most two per history).
     pub edit_held: bool,
+    /// The first synchronous close(2) a10 makes reports EINTR (the descriptor is closed nevertheless).
+    pub close_eintr: bool,
     /// Explicit closes stay in flight until the explorer completes them.
     pub hold_close: bool,
     /// The pool has already performed this many releases (multiple of the pool size).
@@ -118,6 +120,7 @@ impl Cfg {
             zc_error_notif: true,
             hold_close: false,
             edit_held: false,
+            close_eintr: false,
             clone_held: false,
             reread_held: false,
             held_letters: false,
@@ -291,6 +294,9 @@ impl OpsWorld {
         let plan = simk::SetupPlan { c0_sq: cfg.c0_sq, c0_cq: cfg.c0_cq, ..Default::default() };
         simk::reset(plan);
         crate::mapwatch::watch_fd(-1);
+        if cfg.close_eintr {
+            crate::mapwatch::CLOSE_EINTR_AT.store(1, std::sync::atomic::Ordering::SeqCst);
+        }
         simk::with(|k| {
             k.zc_error_notif = cfg.zc_error_notif;
             k.hold_user_close = cfg.hold_close;
@@ -480,8 +486,14 @@ impl OpsWorld {
             self.log_pos = k.log.len();
             (ev, std::mem::take(&mut k.violations))
         });
+        // C09: an operation the kernel interrupted (and the caller did not drop) is re-issued "with the same
+        // resources": memory the kernel finds freed or changed after such a restart is C09's as well as C01's.
+        let restarted = self.cfg.prop == "C09" && self.slots.iter().any(|s| !s.dropped && s.recs.iter().any(|r| r.res == -libc::EINTR || r.res == -libc::ECANCELED));
         for (class, msg) in viol {
             let prop = if class.starts_with("sq-") { "C04" } else if class.starts_with("close-") { "C07" } else { "C01" };
+            if restarted && prop == "C01" {
+                self.report("C09", &format!("restart-resources/{class}"), msg.clone());
+            }
             self.report(prop, &class, msg);
         }
         for ev in events {
